@@ -286,4 +286,10 @@ P['C15'] = dict(
     trusted_extra=['/verif/access (go/packages + go/types from golang.org/x/tools v0.29.0): call graph, root sets, read/write classification', 'Go race detector (ThreadSanitizer runtime)'],
 )
 
+P['C18'] = dict(
+    rule='grammar-based random dialect definitions (12 packages in quick, 60 in thorough): a root XML with 0..2 includes, possibly a common file included from several (diamond), versions present or absent per file; enums with decimal / 0x (both cases) / 0b / 2**k values, bitmask or not; messages whose names use digits, double and trailing underscores; 1..9 fields per message over all ten scalar types, arrays, char[n], plain char, enum-typed integer fields and arrays of them, uint8_t_mavlink_version, extensions from a random position; field names in snake case and in shapes that do not convert back (capitals, digits after underscores, double and trailing underscores). The real conversion.Convert writes the Go package (link mode off) into the harness module, twice (files compared byte for byte); a generated probe imports every package, and the harness compares with the model: per message the struct as reflection reports it (names, array lengths, element types, kinds, all four tags), its id and the CRC_EXTRA the run-time computes; every enum constant; the dialect (Initialize result, version, message order across includes); plus definitions that must be refused (unknown types, bad message names, 15 malformed enum values, a missing include). Non-trivial: a generated message or a constant.',
+    assumptions=['the Go compiler and reflect are trusted to mean what the language says of the emitted text; only what the probe reports is compared', 'valid definitions: message names [A-Z][A-Z0-9_]*, field names starting with a letter, array lengths without leading zeros, unique Go names inside a message, unique enum values inside an enum'],
+    mismatch_meaning='the package the generator wrote, once compiled, differs from the model of the generator the C18 theorems are proved about (struct shape, tags, CRC_EXTRA, constants, version, message order), or the generator accepted what it cannot express, or its output differs between two runs',
+)
+
 KNOWN_MATCH = {'F12': match_f12}
